@@ -220,8 +220,24 @@ def generate():
     need(re.search(r'file\(\)->open\(QIODevice::WriteOnly \| QIODevice::Append \| QIODevice::Text\)', ctor),
          'FileSink::FileSink: buffered append open mode')
     io = _flat(strip_comments(rd('sinks/iodevicesink.cpp')), 'IODeviceSink::send')
-    need(any(g == () and s == 'm_device->write(lmsg.formattedMessage().toLocal8Bit().append("\\n"))' for g, s in io),
-         'IODeviceSink::send: one write of message + newline')
+    WRITE = 'm_device->write(lmsg.formattedMessage().toLocal8Bit().append("\\n"))'
+    need([x for x in io if x[1] == WRITE] == [((), WRITE)], 'IODeviceSink::send: one unconditional write of message + newline')
+    snk_types, seen_write = [], False
+    for g, st1 in io:
+        if st1 == WRITE:
+            seen_write = True
+        elif st1 == 'return' and g == (('if', 'm_device.isNull()'),) and not seen_write:
+            pass
+        elif re.fullmatch(r'(this->)?flush\(\)', st1):
+            # the sink flushes itself after writing certain message types
+            need(seen_write and len(g) == 1 and g[0][0] == 'if'
+                 and re.fullmatch(r'lmsg\.type\(\) == Qt\w+Msg( \|\| lmsg\.type\(\) == Qt\w+Msg)*', g[0][1]),
+                 'IODeviceSink::send: flush() placement/guard %r not understood' % (g,))
+            ts = [MT.get(x) for x in re.findall(r'== (Qt\w+Msg)', g[0][1])]
+            need(all(ts), 'IODeviceSink::send: message type names')
+            snk_types += ts
+        else:
+            raise AnchorError('ANCHOR NOT FOUND: IODeviceSink::send: statement %r not understood' % st1)
     need(not re.search(r'\bflush\s*\(', strip_comments(rd('sinks/rotatingfilesink.h'))), 'rotatingfilesink.h must not redefine flush()')
 
     # ---- RotatingFileSink::send ------------------------------------------------------------------
@@ -241,8 +257,8 @@ def generate():
     out += 'Definition src_fatal_cfg : fatal_cfg := {|\n'
     out += '  ff_pos := %s;\n  ff_types := [%s];\n  ff_cond := %s;\n' % (pos, '; '.join(types), cond)
     b = lambda x: 'true' if x else 'false'
-    out += '  rf_flush_sinks := %s;\n  rf_descends := %s;\n  fs_flush_real := %s;\n  rot_presize := %s |}.\n' % (
-        b(rf_sinks), b(rf_desc), b(real), b(presize))
+    out += '  rf_flush_sinks := %s;\n  rf_descends := %s;\n  fs_flush_real := %s;\n  rot_presize := %s;\n  snk_flush_types := [%s] |}.\n' % (
+        b(rf_sinks), b(rf_desc), b(real), b(presize), '; '.join(snk_types))
     # the flag the task names: does processMessage flush after a fatal message of the synchronous logger
     out += 'Definition flush_on_fatal : bool := flushes src_fatal_cfg Fatal.\n'
     return {'SrcFatal.v': out}
